@@ -435,6 +435,9 @@ where
     // clippy 0.1.52 (9a1dfd2dc5c 2021-04-30) in Rust 1.52.0-beta.7
     #[allow(clippy::needless_collect)]
     pub fn invalidate_entries_if(&mut self, mut predicate: impl FnMut(&K, &V) -> bool) {
+        self.evict_expired_if_needed();
+        self.evict_lru_entries();
+
         let Self { cache, deques, .. } = self;
 
         // Since we can't do cache.iter() and cache.remove() at the same time,
